@@ -142,6 +142,11 @@ inline std::vector<Footer> footer_catalog(bool thorough) {
   add("<-03>3<-02>,M3.5.0/-2,M10.5.0/-1", "M,negtime");
   add("XXX-2<+03>-3,0/0,J365/25", "allyear");
   add("EST5EDT,0/0,J365/25", "allyear");
+  // rules whose gap / overlap straddles the END of the time_point range (292277026596-12-04T15:30:07Z)
+  add("STD0DST,J338/15,J60/0", "J,gap-straddles-max");
+  add("STD0DST,J60/0,J338/16:15", "J,overlap-straddles-max");
+  add("AAA5BBB,J338/10:15,J60/0", "J,gap-straddles-max,west");
+  add("AAA-9:30BBB,J100,J339/1:45", "J,overlap-straddles-max,east");
   add("XXX-2<+01>-1,0/0,J365/23", "allyear,negative-saving");      // what zic writes for permanent negative-SAVE rules
   add("<+01>-1<+00>0,0/0,J365/23", "allyear,negative-saving");
   add("AAA-5:30BBB-7:30,0/0,J365/26", "allyear,2h-saving");
